@@ -1173,6 +1173,14 @@ func stressFuture(seed int64, scale int) int {
 	return v.report("future", runs)
 }
 
+type anyCache struct {
+	mu sync.Mutex
+	m  map[string]any
+}
+
+func (c *anyCache) Get(k string) (any, bool) { c.mu.Lock(); defer c.mu.Unlock(); v, ok := c.m[k]; return v, ok }
+func (c *anyCache) Set(k string, v any)      { c.mu.Lock(); defer c.mu.Unlock(); c.m[k] = v }
+
 // ---------------------------------------------------------------------------------------------------- C19 core leaks
 
 func stressLeaks(seed int64, scale int) int {
@@ -1493,6 +1501,39 @@ func stressShared(seed int64, scale int) int {
 		}
 	}
 	sharedCache.mu.Unlock()
+	// two executions that overlap on ONE key (C11): both miss; the one that finishes first stores its result, and so does the one
+	// that finishes later - "a miss with an error-free inner result is stored" has no exception for a key that got a value meanwhile
+	for round := 0; round < 5; round++ {
+		oc := &mapCache{m: map[string]int{}}
+		var stored atomic.Int32
+		oex := failsafe.NewExecutor[int](cachepolicy.Builder[int](oc).WithKey("k").OnResultCached(func(failsafe.ExecutionEvent[int]) { stored.Add(1) }).Build())
+		aIn, bDone := make(chan struct{}), make(chan struct{})
+		var owg sync.WaitGroup
+		owg.Add(1)
+		go func() {
+			defer owg.Done()
+			oex.Get(func() (int, error) { close(aIn); <-bDone; return 100 + round, nil })
+		}()
+		<-aIn
+		oex.Get(func() (int, error) { return 200 + round, nil })
+		close(bDone)
+		owg.Wait()
+		if got, _ := oc.Get("k"); got != 100+round || stored.Load() != 2 {
+			v.add(fmt.Sprintf("overlapping executions on one cache key: the cache holds %d after the later finisher returned %d (stores reported: %d, want 2)", got, 100+round, stored.Load()))
+		}
+	}
+	// a cached result that is the zero value of an interface result type (what Run stores) is a hit like any other (C11)
+	{
+		ac := &anyCache{m: map[string]any{}}
+		var calls atomic.Int32
+		aex := failsafe.NewExecutor[any](cachepolicy.Builder[any](ac).WithKey("k").Build())
+		for i := 0; i < 3; i++ {
+			aex.Run(func() error { calls.Add(1); return nil })
+		}
+		if calls.Load() != 1 {
+			v.add(fmt.Sprintf("a cached nil result (result type any) was not served as a hit: the function ran %d times in 3 executions", calls.Load()))
+		}
+	}
 	// the retry budget belongs to one execution (C02): executions that share one retry policy, concurrently and in succession,
 	// each get exactly maxRetries + 1 invocations of an always-failing function and end with ExceededError
 	var bFail, bRetry, bSched, bExceeded, bDone, bExecs atomic.Int64
